@@ -60,14 +60,16 @@ Definition pass (p : promise) (exited : list Z) : list Z :=
   match p_exited p with Some x => x :: exited | None => exited end.
 
 Inductive Eval : promise -> state -> vout -> state -> Prop :=
-| EvCancel : forall p st, poll st = None -> Eval p st VCancel st
-| EvFalse : forall p st st1, poll st = Some st1 -> p_delayed p = [] -> p_err p = None -> p_ok p = false ->
+| EvFuel : forall p st, is_fuel_err p = true -> Eval p st (VErr EFuel []) st     (* the model's out-of-fuel marker *)
+| EvCancel : forall p st, is_fuel_err p = false -> poll st = None -> Eval p st VCancel st
+| EvFalse : forall p st st1, is_fuel_err p = false -> poll st = Some st1 -> p_delayed p = [] -> p_err p = None -> p_ok p = false ->
     Eval p st VFalse st1
-| EvTrue : forall p st st1, poll st = Some st1 -> p_delayed p = [] -> p_err p = None -> p_ok p = true ->
+| EvTrue : forall p st st1, is_fuel_err p = false -> poll st = Some st1 -> p_delayed p = [] -> p_err p = None -> p_ok p = true ->
     Eval p st VTrue st1
-| EvErr : forall p st st1 e, poll st = Some st1 -> p_delayed p = [] -> p_err p = Some e ->
+| EvErr : forall p st st1 e, is_fuel_err p = false -> poll st = Some st1 -> p_delayed p = [] -> p_err p = Some e ->
     Eval p st (VErr e []) st1
 | EvStep : forall p st st1 th ths f q st2 oq st3 o st4,
+    is_fuel_err p = false ->
     poll st = Some st1 -> p_delayed p = th :: ths ->
     run_thunk f th st1 = (q, st2) ->
     Eval q st2 oq st3 ->
@@ -154,7 +156,7 @@ Proof.
     destruct (is_fuel_err p) eqn:Hfe; [inversion H; subst; contradiction|].
     destruct (s_polls st) as [[|n]|] eqn:Hp.
     + (* cancelled *)
-      inversion H; subst. eapply RunCons; [apply EvCancel; unfold poll; rewrite Hp; reflexivity | apply RsCancel].
+      inversion H; subst. eapply RunCons; [apply EvCancel; [exact Hfe | unfold poll; rewrite Hp; reflexivity] | apply RsCancel].
     + (* Some (S n) *)
       assert (Hpoll : poll st = Some (set_polls st (Some n))) by (unfold poll; rewrite Hp; reflexivity).
       destruct (p_delayed p) as [|th ths] eqn:Hd.
@@ -168,7 +170,7 @@ Proof.
         inversion H; subst.
         match goal with HR : Resume _ (_ :: _) _ _ _ |- _ => apply resume_after in HR; destruct HR as (o2 & st4 & Haf & Hres) end.
         eapply RunCons.
-        -- eapply EvStep; [exact Hpoll | exact Hd | exact Hrun | eassumption |].
+        -- eapply EvStep; [exact Hfe | exact Hpoll | exact Hd | exact Hrun | eassumption |].
            unfold stepped. rewrite Hd. cbn [tl]. exact Haf.
         -- destruct (p_cutp p); cbn [wrapcut]; [apply RsCut|]; exact Hres.
     + (* never cancelled *)
@@ -184,7 +186,7 @@ Proof.
         inversion H; subst.
         match goal with HR : Resume _ (_ :: _) _ _ _ |- _ => apply resume_after in HR; destruct HR as (o2 & st4 & Haf & Hres) end.
         eapply RunCons.
-        -- eapply EvStep; [exact Hpoll | exact Hd | exact Hrun | eassumption |].
+        -- eapply EvStep; [exact Hfe | exact Hpoll | exact Hd | exact Hrun | eassumption |].
            unfold stepped. rewrite Hd. cbn [tl]. exact Haf.
         -- destruct (p_cutp p); cbn [wrapcut]; [apply RsCut|]; exact Hres.
   - (* recover *)
